@@ -1,6 +1,6 @@
 (* C14 correspondence: observations of the real pkg/util/wait (fastBackoffImpl, BackoffUntil), of the
    config defaulting, and of whole frps/frpc processes (liveness driver) against the models. *)
-From FRP Require Export Corr.Common Model.Backoff Model.Heartbeat Model.Relogin.
+From FRP Require Export Corr.Common Model.Backoff Model.Heartbeat Model.Relogin gen.GenBackoffOpts.
 Open Scope Z_scope.
 
 Definition mkopts (d fn fd jn jd mx init fc fdel fjn fjd fw : Z) : fb_opts :=
@@ -25,7 +25,8 @@ Inductive case :=
    server side: timeout T (s), valid ping instants, number of invalid pings, observed close instant (-1: still open at [until]) *)
 | CSrvWatch (T : Z) (pings : list Z) (invalid : list Z) (closed_at until slack : Z)
 | CCliWatch (I T : Z) (pongs : list Z) (pong_err_at closed_at until slack : Z)
-| CRelogin (cfg : list (Z * Z)) (evs : list rl_ev) (sessions : list (list (Z * Z)))
+(* [exit_first] = the client's LoginFailExit; [alive] = the real frpc is still running at the end *)
+| CRelogin (exit_first : bool) (cfg : list (Z * Z)) (evs : list rl_ev) (sessions : list (list (Z * Z))) (alive : bool)
 (* gaps (ms) between consecutive failed login attempts of one loopLoginUntilSuccess(max_interval) *)
 | CLoginGaps (max_interval : Z) (gaps : list Z) (slack : Z).
 
@@ -174,9 +175,12 @@ Fixpoint sessions_eqb (a b : list (list (Z * Z))) : bool :=
   | _, _ => false
   end.
 
-Definition check_relogin (cfg : list (Z * Z)) (evs : list rl_ev) (sessions : list (list (Z * Z))) : Z :=
-  let st := rl_run (rl_init cfg) evs in
-  if sessions_eqb (map rl_sorted_set (rev (rl_history st))) sessions then 0 else 51.
+Definition check_relogin (ef : bool) (cfg : list (Z * Z)) (evs : list rl_ev) (sessions : list (list (Z * Z))) (alive : bool) : Z :=
+  let st := rl_run (rl_init cfg ef gen_relogin_exit) evs in
+  let model_alive := match rl_phase_of st with PStopped => false | _ => true end in
+  if negb (sessions_eqb (map rl_sorted_set (rev (rl_history st))) sessions) then 51
+  else if negb (Bool.eqb model_alive alive) then 52     (* the client gave up where the model keeps going, or vice versa *)
+  else 0.
 
 (* the k-th gap must be a delay the model allows (plus the duration of the attempt itself, <= slack):
    lower chain j = 0 fed with the smallest possible previous delay, upper chain j = max *)
@@ -204,16 +208,16 @@ Definition check_case (c : case) : Z :=
           if negb (first_delay =? fo_duration o) then 24 else check_until sliding o st its finished
       end
   | CDefaults tcpmux i t srv_t cli_i cli_t =>
-      if negb (hb_server_default tcpmux t =? srv_t) then 11
-      else if negb (fst (hb_client_default tcpmux i t) =? cli_i) then 12
-      else if negb (snd (hb_client_default tcpmux i t) =? cli_t) then 13
+      if negb (gen_hb_server_default tcpmux t =? srv_t) then 11
+      else if negb (fst (gen_hb_client_default tcpmux i t) =? cli_i) then 12
+      else if negb (snd (gen_hb_client_default tcpmux i t) =? cli_t) then 13
       else 0
   | CSrvWatch T pings invalid closed_at until slack => check_srv_watch T pings invalid closed_at until slack
   | CCliWatch iv T pongs pe closed_at until slack => check_cli_watch iv T pongs pe closed_at until slack
-  | CRelogin cfg evs sessions => check_relogin cfg evs sessions
+  | CRelogin ef cfg evs sessions alive => check_relogin ef cfg evs sessions alive
   | CLoginGaps mx gaps slack =>
-      match bu_start (fb_login_opts mx) 0 0 with
-      | Some st => check_gaps (fb_login_opts mx) st st gaps slack
+      match bu_start (gen_login_opts mx) 0 0 with
+      | Some st => check_gaps (gen_login_opts mx) st st gaps slack
       | None => 60
       end
   end.
